@@ -400,7 +400,12 @@ def py_in(I, a, b):
         return py_in(I, a, I.iterate(b))
     if isinstance(b, dict) or isinstance(b, type({}.keys())):
         if is_sym(a):
-            raise Unsupported("symbolic key membership")
+            # numeric keys compare by VALUE: membership of a symbolic number forks over the numeric keys
+            for k in list(b):
+                if is_sym(k) or (is_num(k) and not isinstance(k, bool)):
+                    if k is a or I.decide(zt(a) == zt(k)):
+                        return True
+            return False
         if _is_special(a):
             return any(k is a for k in b)
         return a in b
@@ -512,7 +517,13 @@ def getitem(I, o, k):
         return I.call_resolved(c, m, "__getitem__", [o, k], {})
     if isinstance(o, dict):
         if is_sym(k):
-            raise Unsupported("symbolic dict key")
+            for kk in list(o):
+                if kk is k:
+                    return o[kk]
+            for kk in list(o):
+                if (is_sym(kk) or (is_num(kk) and not isinstance(kk, bool))) and I.decide(zt(k) == zt(kk)):
+                    return o[kk]
+            raise IN.RaisedEx("KeyError", repr(k), I.ctx.loc)
         try:
             return o[k]
         except KeyError:
